@@ -136,6 +136,31 @@ def gen_frames(rng, k, n, mask=None):
     return out
 
 
+# scale axis: when set, the frame count / the number of top-level items of the next generated block is forced
+SCALE = dict(frames=None, items=None)
+SCALE_FRAMES = [255, 256, 257, 1023, 1024, 1025, 4095, 4096, 4097, 65535, 65536, 65537]
+SCALE_ITEMS = [15, 16, 17, 31, 32, 33, 63, 64, 65, 127, 128, 129, 255, 256, 257]
+
+
+def gen_scaled(rng, kind):
+    """a valid block at a size where thresholds, power-of-two buffers or narrow counters would sit: many frames with one or
+    two items, or many items with one or two frames"""
+    try:
+        if kind in ("data3d", "emg", "force3d", "platdata") and rng.random() < 0.5:
+            SCALE["frames"], SCALE["items"] = rng.choice(SCALE_FRAMES), rng.choice([1, 2])
+        elif kind == "events" and rng.random() < 0.5:
+            SCALE["frames"], SCALE["items"] = rng.choice(SCALE_FRAMES[:9]), rng.choice([1, 2])
+        else:
+            SCALE["frames"], SCALE["items"] = rng.choice([1, 2]), rng.choice(SCALE_ITEMS)
+        return GEN[kind](rng)
+    finally:
+        SCALE["frames"] = SCALE["items"] = None
+
+
+def items_count(rng, big=6):
+    return SCALE["items"] if SCALE["items"] is not None else gen_count(rng, big)
+
+
 def gen_count(rng, big=6):
     r = rng.random()
     if r < 0.12:
@@ -146,6 +171,8 @@ def gen_count(rng, big=6):
 
 
 def gen_nframes(rng, big):
+    if SCALE["frames"] is not None:
+        return SCALE["frames"]
     r = rng.random()
     if r < 0.15:
         return 1
@@ -187,12 +214,12 @@ def gen_data3d(rng, big=12):
     if fmt == 1 and rng.random() < 0.6:
         links = [[rng.choice([0, 1, 2 ** 32 - 1, rng.randrange(2 ** 32)]), rng.randrange(0, 40)] for _ in range(rng.randrange(0, 5))]
     return [fmt, n, gen_i32(rng), gen_f32(rng), gen_vec(rng, 3), gen_vec(rng, 9), gen_vec(rng, 3), rng.choice([0, 1]),
-            links, [[gen_label(rng, 256), gen_frames(rng, 3, n)] for _ in range(gen_count(rng))]]
+            links, [[gen_label(rng, 256), gen_frames(rng, 3, n)] for _ in range(items_count(rng))]]
 
 
 def gen_emg(rng, big=12):
     n = gen_nframes(rng, big)
-    k = gen_count(rng)
+    k = items_count(rng)
     return [gen_i32(rng), gen_f32(rng), n, gen_chans(rng, k, -32768, 32768),
             [[gen_label(rng, 256), gen_frames(rng, 1, n)] for _ in range(k)]]
 
@@ -200,23 +227,23 @@ def gen_emg(rng, big=12):
 def gen_force3d(rng, big=10):
     n = gen_nframes(rng, big)
     return [gen_i32(rng), gen_f32(rng), n, gen_vec(rng, 3), gen_vec(rng, 9), gen_vec(rng, 3),
-            [[gen_label(rng, 256), gen_frames(rng, 9, n)] for _ in range(gen_count(rng, 4))]]
+            [[gen_label(rng, 256), gen_frames(rng, 9, n)] for _ in range(items_count(rng, 4))]]
 
 
 def gen_platdata(rng, big=12):
     n = gen_nframes(rng, big)
-    k = gen_count(rng, 4)
+    k = items_count(rng, 4)
     return [gen_i32(rng), gen_f32(rng), n, gen_chans(rng, k, 0, 65536), [gen_frames(rng, 6, n) for _ in range(k)]]
 
 
 def gen_platcalib(rng):
-    k = gen_count(rng, 4)
+    k = items_count(rng, 4)
     return [gen_chans(rng, k, -32768, 32768), [[gen_label(rng, 256), gen_vec(rng, 2), gen_vec(rng, 12)] for _ in range(k)]]
 
 
 def gen_data2d(rng, big=5):
     nc = gen_count(rng, 4)
-    nf = gen_count(rng, big)
+    nf = items_count(rng, big)
     rows = []
     # the per-cell point count is a u16: now and then one cell sits at a boundary of 8/16-bit arithmetic
     boundary = rng.choice([255, 256, 257, 4095, 4096, 8191, 8192, 8193, 32767, 32768, 65535]) if rng.random() < 0.06 else None
@@ -237,7 +264,7 @@ def gen_data2d(rng, big=5):
 
 def gen_calib(rng):
     fmt = rng.choice([1, 2])
-    k = gen_count(rng, 3)
+    k = items_count(rng, 3)
     nfl = 22 if fmt == 1 else 156
     return [fmt, rng.randrange(0, 4), gen_vec(rng, 3), gen_vec(rng, 9), gen_vec(rng, 3), gen_chans(rng, k, -32768, 32768),
             [[[gen_f64(rng) for _ in range(nfl)], gen_vp(rng)] for _ in range(k)]]
@@ -245,14 +272,16 @@ def gen_calib(rng):
 
 def gen_optical(rng):
     return [rng.choice([1, 1, 1, 0]), [[gen_i32(rng), gen_label(rng, 32), gen_label(rng, 32), gen_label(rng, 32), gen_vp(rng)]
-                                        for _ in range(gen_count(rng, 5))]]
+                                        for _ in range(items_count(rng, 5))]]
 
 
 def gen_events(rng):
     evs = []
-    for _ in range(gen_count(rng, 5)):
+    for _ in range(items_count(rng, 5)):
         kind = rng.choice([0, 1])
         nv = rng.choice([0, 1]) if kind == 0 else rng.choice([0, 1, 2, 5, 5, 64, 255, 256, 300] if rng.random() < 0.1 else [0, 1, 2, 5])
+        if kind == 1 and SCALE["frames"] is not None and SCALE["frames"] > 2:
+            nv = SCALE["frames"]
         evs.append([gen_label(rng, 256), kind, [gen_f32(rng) for _ in range(nv)]])
     return [rng.choice([1, 1, 1, 0]), gen_f32(rng), evs]
 
